@@ -3044,3 +3044,42 @@ func apiRound8Typed(repM, repU *Report) {
 		repM.violate("C08", "not-deterministic", fmt.Sprintf("a map keyed by pointers to structs holding funcs, marshalled under IgnoreFuncs, gives different streams for the same content (first [%s], %v)", truncate(descTokens(first), 200), err), "IgnoreFuncs + func-holding pointer keys")
 	}
 }
+
+// ---- one decoder VALUE (the Proc DecodeBuffer returned) polled again and again on a reader that a producer appends to ----
+func apiPolledDecoder(rep *Report, r *rand.Rand) {
+	for flavour := 0; flavour < 2; flavour++ {
+		buf := new(bytes.Buffer)
+		var dec sb.Proc
+		if flavour == 0 {
+			dec = sb.DecodeBuffer(buf, buf, make([]byte, 8), nil)
+		} else {
+			dec = sb.DecodeBuffer(plainOnly{buf}, nil, make([]byte, 8), nil)
+		}
+		for poll := 0; poll < 12; poll++ {
+			var want []sb.Token
+			if poll%3 != 1 { // every third poll finds nothing new
+				for k := 0; k < 1+r.Intn(3); k++ {
+					v := randValue(r, 2, false).flatten(nil)
+					want = append(want, v...)
+				}
+				if e := guard(func() error { return sb.Copy(tokensFrom(want), sb.Encode(buf)) }); e != nil {
+					return
+				}
+			}
+			stream := dec // the same decoder value, pulled again
+			got, err := collect(&stream)
+			rep.Evaluations++
+			rep.count("api:polled-decoder")
+			if err != nil || !tokensExactEq(got, want) || buf.Len() != 0 {
+				what := fmt.Sprintf("poll %d of one decoder value on a growing reader (flavour %d): %d tokens were appended, the decoder delivered %d (%v), %d bytes left unread", poll, flavour, len(want), len(got), err, buf.Len())
+				rep.violate("C02", "interleaved-roundtrip", what, "polled decoder")
+				rep.violate("C04", "interleaved-roundtrip", what, "polled decoder")
+				return
+			}
+		}
+	}
+}
+
+type plainOnly struct{ r io.Reader }
+
+func (p plainOnly) Read(b []byte) (int, error) { return p.r.Read(b) }
